@@ -50,6 +50,8 @@ pub enum Policy {
     FailWriteAt(usize, Fault),
     /// fail the first flush
     FailFlush(ErrorKind),
+    /// the first k flush calls return Interrupted (nothing is flushed by them)
+    FlushInterrupted(u64),
     /// at write call `at`, return Interrupted `n` times in a row (not logged individually), then accept `cap` bytes per call
     InterruptStorm { at: usize, n: u64, cap: usize },
     /// every write call first drives ANOTHER fst builder on the same thread (a journaling/indexing sink), then accepts `cap` bytes
@@ -183,7 +185,7 @@ impl Write for Sink {
                     Outcome::Accepted(offered)
                 }
             }
-            Policy::FailFlush(_) => Outcome::Accepted(offered),
+            Policy::FailFlush(_) | Policy::FlushInterrupted(_) => Outcome::Accepted(offered),
             Policy::InterruptStorm { .. } | Policy::Reentrant { .. } => unreachable!(),
         };
         s.log.push(Event { write: true, offered, outcome: outcome.clone(), phase, offset });
@@ -208,6 +210,14 @@ impl Write for Sink {
         let mut s = self.0.borrow_mut();
         let offset = s.data.len();
         let phase = s.phase;
+        if let Policy::FlushInterrupted(k) = s.policy.clone() {
+            let left = s.storm_left.get_or_insert(k);
+            if *left > 0 {
+                *left -= 1;
+                s.log.push(Event { write: false, offered: 0, outcome: Outcome::Interrupted, phase, offset });
+                return Err(io::Error::new(ErrorKind::Interrupted, "injected interrupted flush"));
+            }
+        }
         if let Policy::FailFlush(k) = s.policy.clone() {
             if !s.failed {
                 s.failed = true;
